@@ -13,7 +13,7 @@ import re
 
 from ..core.flow import call_name, calls_in, is_name, reaching_defs
 from ..core.interp import ModuleInterp
-from ..core.loader import AnalysisError, short, own_nodes, norm
+from ..core.loader import AnalysisError, short, own_nodes, norm, canon, function_locals
 from ..core.minieval import Unsupported, Raised
 from ..core.report import where
 
@@ -177,7 +177,16 @@ def rule_a(ctx, out):
 
 def rule_b(ctx, out):
     f = ctx.func(f"{GO}.generate_dependences")
-    appends = [c for c in calls_in(f.node, "append") if isinstance(c.func, ast.Attribute) and is_name(c.func.value, "storage_dependences")]
+    rets = {r.value.id for r in own_nodes(f.node) if isinstance(r, ast.Return) and isinstance(r.value, ast.Name)}
+    if len(rets) != 1:
+        raise AnalysisError("generate_dependences: the returned edge list was not identified")
+    DEPS_NAME = rets.pop()
+    # the locals that hold an answer of are_dependent
+    DEPVARS = {t.id for n in own_nodes(f.node) if isinstance(n, ast.Assign) and isinstance(n.value, ast.Call) and call_name(n.value) == "are_dependent"
+               for t in n.targets if isinstance(t, ast.Name)}
+    if not DEPVARS:
+        raise AnalysisError("generate_dependences: no variable holds the answer of are_dependent")
+    appends = [c for c in calls_in(f.node, "append") if isinstance(c.func, ast.Attribute) and is_name(c.func.value, DEPS_NAME)]
     if len(appends) < 6:
         raise AnalysisError("generate_dependences: fewer than 6 edge insertions found")
     for c in appends:
@@ -190,16 +199,17 @@ def rule_b(ctx, out):
                 conds.append((p, cur in p.body or any(cur is x or cur in list(ast.walk(x)) for x in p.body)))
             cur = p
         texts = [(norm(p.test), pos) for p, pos in conds]
-        has_dep = any(t == "dep" and pos for t, pos in texts)
+        has_dep = any(_is_dep_test(p.test, DEPVARS) and pos for p, pos in conds)
         if not has_dep:
-            out.bad(f"edge-not-under-alias-decision:{short(c, 40)}", "an ordering edge is inserted without consulting are_dependent", where(f, c))
+            out.bad(f"edge-not-under-alias-decision:{canon(short(c, 40), function_locals(f.node))}", "an ordering edge is inserted without consulting are_dependent", where(f, c))
             continue
-        extra = [(t, pos) for t, pos in texts if t != "dep" and ".find(" not in t]
+        extra_nodes = [(p.test, pos) for p, pos in conds if not _is_dep_test(p.test, DEPVARS) and ".find(" not in norm(p.test)]
+        extra = [(norm(t), pos) for t, pos in extra_nodes]
         if not extra:
             out.ok({"edge": short(c), "condition": "dep"})
             continue
-        # value-equality shortcut: `elem[0][1] != store[0][1]` true branch is fine; its else branch needs justification
-        shortcut = [(t, pos) for t, pos in extra if "!= store[0][1]" in t or "!= elem[0][1]" in t]
+        # value-equality shortcut: `<a>[0][1] != <b>[0][1]` true branch is fine; its else branch needs justification
+        shortcut = [(norm(t), pos) for t, pos in extra_nodes if _is_value_diff_test(t)]
         in_else = [t for t, pos in shortcut if not pos]
         if shortcut and not in_else:
             out.ok({"edge": short(c), "condition": "dep and values differ"})
@@ -210,7 +220,7 @@ def rule_b(ctx, out):
         for t in others:
             if "are_dependent_variables" in t:
                 kinds.append("address-depends-on-address")
-            elif "str(var) == str(var_rest)" in t and "memory" in t:
+            elif re.search(r"str\(\w+\) == str\(\w+\)", t) and "memory" in t:
                 kinds.append("same-address-in-memory")
             else:
                 kinds.append("other:" + t)
@@ -231,7 +241,7 @@ def rule_b(ctx, out):
         for (label, k), body in zip(want, chain):
             m = ast.Module(body=body, type_ignores=[])
             n_dec = len(calls_in(m, "are_dependent"))
-            n_app = len([c for c in calls_in(m, "append") if isinstance(c.func, ast.Attribute) and is_name(c.func.value, "storage_dependences")])
+            n_app = len([c for c in calls_in(m, "append") if isinstance(c.func, ast.Attribute) and is_name(c.func.value, DEPS_NAME)])
             if n_dec >= k and n_app >= k:
                 out.ok({"class": label, "alias_decisions": n_dec, "edge_insertions": n_app})
             else:
@@ -240,7 +250,7 @@ def rule_b(ctx, out):
     # the suppression itself: which may-overlap pairs get no edge?  equal values at different addresses
     supp = []
     for n in own_nodes(f.node):
-        if isinstance(n, ast.If) and ("!= store[0][1]" in norm(n.test)) and n.orelse:
+        if isinstance(n, ast.If) and _is_value_diff_test(n.test) and n.orelse:
             # else branch = equal values; edges there are conditional
             kept = [norm(s.test) for s in n.orelse if isinstance(s, ast.If)]
             branch = "store/store" if any("are_dependent_variables" in k for k in kept) else "load/store"
@@ -260,6 +270,17 @@ def rule_b(ctx, out):
             out.bad("equal-value-shortcut-applies-to-memory", "two stores of the same value get no ordering edge unless their address expressions "
                     "depend on each other or are identical; for MSTORE at partially overlapping addresses the final bytes depend on the order",
                     where(f, n), {"kept_conditions": kept})
+
+
+def _is_dep_test(t, depvars):
+    return isinstance(t, ast.Name) and t.id in depvars
+
+
+def _is_value_diff_test(t):
+    """<a>[0][1] != <b>[0][1] : the stored values of two accesses differ"""
+    def val(e):
+        return isinstance(e, ast.Subscript) and norm(e.slice) == "1" and isinstance(e.value, ast.Subscript) and norm(e.value.slice) == "0" and isinstance(e.value.value, ast.Name)
+    return isinstance(t, ast.Compare) and len(t.ops) == 1 and isinstance(t.ops[0], ast.NotEq) and val(t.left) and val(t.comparators[0])
 
 
 def _ancestors_if(n, top):
@@ -446,24 +467,30 @@ def rule_f(ctx, out):
     """Every earlier / later store is examined: the scans of generate_dependences are bounded only by the index, never by a flag
     that is set when a dependence was found."""
     f = ctx.func(f"{GO}.generate_dependences")
-    loops = [n for n in own_nodes(f.node) if isinstance(n, ast.While)]
+    deps = {t.id for n in own_nodes(f.node) if isinstance(n, ast.Assign) and isinstance(n.value, ast.Call) and call_name(n.value) == "are_dependent"
+            for t in n.targets if isinstance(t, ast.Name)}
+    # a scan = a loop (while over an index, or for over a range) in whose body are_dependent is consulted
+    loops = [n for n in own_nodes(f.node) if isinstance(n, (ast.While, ast.For)) and n is not f.node.body[0]
+             and any(call_name(c) == "are_dependent" for st in n.body for c in calls_in(st))
+             and not any(isinstance(x, (ast.While, ast.For)) and any(call_name(c) == "are_dependent" for c in calls_in(x)) for st in n.body for x in ast.walk(st))]
     if len(loops) < 5:
         raise AnalysisError("generate_dependences: fewer than 5 scan loops found")
     for l in loops:
-        tv = {x.id for x in ast.walk(l.test) if isinstance(x, ast.Name)}
-        # names assigned somewhere under an `if dep` inside this loop
+        head = l.test if isinstance(l, ast.While) else l.iter
+        tv = {x.id for x in ast.walk(head) if isinstance(x, ast.Name)}
+        # names assigned somewhere under an `if <answer of are_dependent>` inside this loop
         flags = set()
         for st in ast.walk(l):
-            if isinstance(st, ast.If) and "dep" in {x.id for x in ast.walk(st.test) if isinstance(x, ast.Name)}:
+            if isinstance(st, ast.If) and deps & {x.id for x in ast.walk(st.test) if isinstance(x, ast.Name)}:
                 for a in ast.walk(st):
                     if isinstance(a, ast.Assign):
                         flags |= {t.id for t in a.targets if isinstance(t, ast.Name)}
-        early = [b for b in ast.walk(l) if isinstance(b, ast.Break)]
+        early = [b for b in ast.walk(l) if isinstance(b, (ast.Break, ast.Return))]
         if tv & flags or early:
-            out.bad(f"scan-stops-at-first-dependence:{short(l.test, 40)}", f"the scan `while {short(l.test, 50)}` ends as soon as one dependent store was found: "
-                    f"other stores the access may alias get no ordering edge", where(f, l))
+            out.bad(f"scan-stops-at-first-dependence:{canon(short(head, 40), function_locals(f.node))}", f"the scan `{short(head, 50)}` ends as soon as one dependent store "
+                    f"was found: other stores the access may alias get no ordering edge", where(f, l))
         else:
-            out.ok({"scan": short(l.test, 40), "bounded_by": sorted(tv)})
+            out.ok({"scan": short(head, 40), "bounded_by": sorted(tv)})
 
 
 def rule_g(ctx, out):
